@@ -5,6 +5,6 @@ Require Import ExtrOcamlBasic.
 Separate Extraction
   wstate wop rop rval rstate
   run_writer run_writer_plain wstep wout wn wv
-  rinit rstep run_reader rerr rn rpos read_plain read
+  rinit rstep run_reader rerr rn rpos read_plain read read_signed_plain
   nr_bytes_read nr_bits_read nr_bits_read_in_current_byte
   escape unescape forbidden.
